@@ -293,6 +293,7 @@ type IntentOpts struct {
 	Collectors bool // '.. * <- *' blocks merging attributes into endpoints and call statements
 	PathVarRefs bool // REST path variables typed by a bare local type name or App.Type
 	MultiLineAnnos bool // string annotations written in the multi-line form '@k =:' + '| text' lines
+	PlusText bool // a literal '+' in return payloads, call endpoints and action text
 }
 
 func GenIntent(t *rapid.T) *Intent { return GenIntentOpt(t, IntentOpts{}) }
@@ -386,6 +387,35 @@ func GenIntentOpt(t *rapid.T, opts IntentOpts) *Intent {
 					multi(&td.Fields[i].T.Meta)
 				}
 			}
+		}
+	}
+	if opts.PlusText {
+		// '+' is an ordinary character of free text (media types, "C++", "A+B"): it must arrive in the
+		// model as written (names and payloads go through URL-unescaping, where '+' is not an escape)
+		plus := func(ss []*Stmt) {
+			walkStmts(ss, func(s *Stmt, _ int) {
+				if s.keyword == "doc" || rapid.IntRange(0, 5).Draw(t, "plus") != 0 {
+					return
+				}
+				switch s.Kind {
+				case "ret":
+					s.Text = pick(t, []string{`ok <: string [mediatype="application/vnd.api+json"]`, "ok <: a+b", "200 <: Item [note=\"1+1\"]"}, "plusret")
+				case "call":
+					if !strings.Contains(s.Endpoint, " /") {
+						s.Endpoint = pick(t, []string{"Charge A+B", "C++", "a+b"}, "plusep")
+					}
+				case "action":
+					if !strings.HasPrefix(s.Text, "\"") {
+						s.Text += " c++ a+b"
+					}
+				}
+			}, 0)
+		}
+		for _, a := range in.Apps {
+			for _, ep := range a.Eps {
+				plus(ep.Stmts)
+			}
+			restMethods(a.Rest, 0, func(ep *Endpoint, _ int) { plus(ep.Stmts) })
 		}
 	}
 	if opts.Collectors {
